@@ -85,6 +85,7 @@ class RngWorld(World):
         elif rng.random() < 0.15:
             a["accel"] = int(max(2, round(a["accel"])))  # integer acceleration
         a["arg_types"] = rng.choice(["tuple", "tuple", "list", "numpy"])
+        a["return_density"] = rng.random() < 0.15   # documented flag; must not change the mask
         return a
 
     def gen_plan(self, seed, tier, config="jit"):
@@ -214,6 +215,8 @@ class RngWorld(World):
                 kw = dict(calib=calib_arg, dtype=np.dtype(args["dtype"]).type if args["dtype"] != "bool" else bool,
                           crop_corner=args["crop_corner"], seed=seed_arg, max_attempts=args["max_attempts"],
                           tol=args["tol"])
+                if args.get("return_density"):
+                    kw["return_density"] = True
                 inner = samp._poisson
                 calls = {"n": 0}
 
@@ -251,7 +254,7 @@ class RngWorld(World):
                 if args["seed"] is not None:
                     if after != before:
                         raise Violation("global_rng_state_changed", site, step, {"args": args, "jit": not jit_off})
-                    key = codec.json_digest({kk: vv for kk, vv in args.items() if kk != "arg_types"})
+                    key = codec.json_digest({kk: vv for kk, vv in args.items() if kk not in ("arg_types", "return_density")})
                     dg = codec.bytes_digest(mask)
                     if key in first:
                         stats["probes.rng_repeat_compared"] += 1
